@@ -10,6 +10,15 @@
 //!                              how often Gc::get_mut / Gc::make_mut answered "unique" / "shared", per calling source file,
 //!                              while the program ran (not while the engine was created).
 //! Environment: STEEL_JIT=false switches the JIT off (read by the engine itself).
+//!
+//! `--bc`: bytecode mode (the tie of the reference-counting VM model, lean/SteelVerif/C03/VM.lean, to the real
+//! compiler and VM).  For every program (one compilation unit):
+//!   \x1eB
+//!   \x1eK #builtins N           number of global slots of a fresh engine (slots below N are built-ins)
+//!   the listing of every top-level expression, exactly what `Engine::debug_build_strings` returns (index, op code,
+//!   payload, text of the constant / name), each listing followed by a line `----`
+//!   \x1eX                      end of the listings; the program runs now (the SAME compiled program), its output follows
+//!   \x1eR ok v1\x1fv2…  |  \x1eR err <ErrorKind> | <first line>  |  \x1eR panic <message>
 #![allow(unexpected_cfgs)]
 use std::io::{Read, Write};
 use std::panic::{catch_unwind, AssertUnwindSafe};
@@ -20,6 +29,14 @@ fn main() {
     let mut src = String::new();
     std::io::stdin().read_to_string(&mut src).unwrap();
     std::panic::set_hook(Box::new(|_| {}));
+    if std::env::args().any(|a| a == "--bc") {
+        for prog in src.split("\n;;;===\n") {
+            if !prog.trim().is_empty() {
+                run_bc(prog);
+            }
+        }
+        return;
+    }
     let limit: u64 = std::env::var("C03_TIMEOUT_S").ok().and_then(|s| s.parse().ok()).unwrap_or(40);
     // watchdog: `epoch` = index of the running program; if it does not change for `limit` seconds, give up.
     let epoch = Arc::new(AtomicU64::new(0));
@@ -86,4 +103,66 @@ fn main() {
         }
         std::io::stdout().flush().ok();
     }
+}
+
+fn first_line(e: &steel::rerrs::SteelErr) -> String {
+    let msg = format!("{}", e);
+    let first = msg.lines().next().unwrap_or("").to_string();
+    let kind = first.trim_start_matches("Error: ").split(':').next().unwrap_or("").to_string();
+    format!("{} | {}", kind, first)
+}
+
+/// Bytecode mode: the listing of the program (what the VM is about to execute) and the result of running it.
+fn run_bc(prog: &str) {
+    println!("\u{1e}B");
+    let r = catch_unwind(AssertUnwindSafe(|| {
+        let mut engine = steel::steel_vm::engine::Engine::new();
+        println!("\u{1e}K #builtins {}", engine.globals().len());
+        let p = match engine.emit_raw_program_no_path(prog.to_string()) {
+            Ok(p) => p,
+            Err(e) => {
+                println!("\u{1e}X");
+                return Err(e);
+            }
+        };
+        match engine.debug_build_strings(p.clone()) {
+            Ok(v) => {
+                for s in v {
+                    println!("{}\n----", s.trim_end_matches('\n'));
+                }
+            }
+            Err(e) => println!("=> listing failed: {}", first_line(&e)),
+        }
+        println!("\u{1e}X");
+        std::io::stdout().flush().ok();
+        #[cfg(c03_hook)]
+        let _ = steel::gc::verif::take_counts();
+        engine.run_raw_program(p)
+    }));
+    std::io::stdout().flush().ok();
+    #[cfg(c03_hook)]
+    {
+        // answers of the uniqueness test while the program ran, per calling source file
+        let counts = steel::gc::verif::take_counts();
+        let txt: Vec<String> = counts.iter().map(|(k, a, b)| format!("{}={}/{}", k.replace(' ', ""), a, b)).collect();
+        println!("\n\u{1e}C {}", txt.join(" "));
+    }
+    match r {
+        Ok(Ok(vals)) => {
+            let s: Vec<String> = vals.iter().map(|v| format!("{}", v)).collect();
+            println!("\n\u{1e}R ok {}", s.join("\u{1f}"));
+        }
+        Ok(Err(e)) => println!("\n\u{1e}R err {}", first_line(&e)),
+        Err(p) => {
+            let msg = if let Some(s) = p.downcast_ref::<String>() {
+                s.clone()
+            } else if let Some(s) = p.downcast_ref::<&str>() {
+                s.to_string()
+            } else {
+                "?".into()
+            };
+            println!("\n\u{1e}R panic {}", msg.lines().next().unwrap_or(""));
+        }
+    }
+    std::io::stdout().flush().ok();
 }
